@@ -1186,8 +1186,16 @@ pub(crate) fn verify_mmr_proof<'a, T: Iterator<Item = &'a HeaderView>>(
         return Err(StatusCode::InvalidProof.with_context(errmsg));
     };
     let parent_chain_root = last_header.parent_chain_root();
+    // The block numbers are provided by the peer, and the position arithmetic of the MMR
+    // (`2 * (index + 1)`) overflows for numbers close to `u64::MAX`: the chain root has to be in
+    // the range of the arithmetic, and a header which could be proved by it is covered by it.
+    let end_number: u64 = parent_chain_root.end_number().unpack();
+    if end_number > u64::MAX / 2 - 1 {
+        let errmsg = format!("the end number {} of the chain root is too large", end_number);
+        return Err(StatusCode::InvalidProof.with_context(errmsg));
+    }
     let proof: MMRProof = {
-        let mmr_size = leaf_index_to_mmr_size(parent_chain_root.end_number().unpack());
+        let mmr_size = leaf_index_to_mmr_size(end_number);
         let proof = raw_proof
             .iter()
             .map(|header_digest| header_digest.to_entity())
@@ -1199,6 +1207,12 @@ pub(crate) fn verify_mmr_proof<'a, T: Iterator<Item = &'a HeaderView>>(
         let res = headers
             .map(|header| {
                 let index = header.number();
+                if index > end_number {
+                    return Err(format!(
+                        "block-{} is not covered by the chain root (end number: {})",
+                        index, end_number
+                    ));
+                }
                 let position = leaf_index_to_pos(index);
                 let digest = header.digest();
                 digest.verify()?;
